@@ -23,6 +23,8 @@ for line in sys.stdin:
         n = 'r5-' + n
     if '/out6-' in r['seed']:
         n = 'r6-' + n.lstrip('b')
+    if '/out7-' in r['seed']:
+        n = 'r7-' + n.lstrip('b')
     dst = '/verif/seeded/%s-%s' % (prop, n)
     os.makedirs(dst, exist_ok=True)
     for f in ('patch.diff', 'demo.py'):
